@@ -35,7 +35,7 @@ def slot_composition(an: Analysis, V):
         return f, call, None
     for i, s in enumerate(slots):
         v = it_e.value_at(call.args[i])
-        org = it_e.origins(v)
+        org = it_e.origins(v, stop_kinds=("call:CodeType",))  # a nested code object is a value of its own
         fields = sorted((a for a in org if a[0] == "src" and a[1] == "self"), key=str)
         attrs: Set[str] = set()
         via: Dict[str, Set[str]] = {}
